@@ -24,55 +24,97 @@ func aesCTRZero(key, data []byte) []byte {
 	return out
 }
 
-// MImpersonate rewrites a genuine Reveal-Signature of party from (who knows its own exponent) so that the
-// public key inside X_B is the victim's, keeping from's signature, and recomputes the MAC with m2.
+// akeSecretsFor: the keys of the exchange between from (sender of a Reveal-Signature or Signature message) and to,
+// recomputed from the exponents the two random sources handed out (needs randLog.keep)
+func akeSecretsFor(s *Sys, from, to int, typ byte) (refAKEKeys, bool) {
+	var xf, xt []byte
+	if typ == 0x11 { // from committed, to answered with its D-H key
+		xf, xt = lastDraw(s.ps[from], 40, "dhCommitMessage"), lastDraw(s.ps[to], 40, "dhKeyMessage")
+	} else {
+		xf, xt = lastDraw(s.ps[from], 40, "dhKeyMessage"), lastDraw(s.ps[to], 40, "dhCommitMessage")
+	}
+	if xf == nil || xt == nil {
+		return refAKEKeys{}, false
+	}
+	gt := new(big.Int).Exp(big.NewInt(2), new(big.Int).SetBytes(xt), groupP)
+	return refAKEKeysFor(new(big.Int).Exp(gt, new(big.Int).SetBytes(xf), groupP)), true
+}
+
+// rewriteX: decrypt the encrypted signature of a Reveal-Signature / Signature message, let f rewrite X, encrypt
+// and MAC again with the right keys (what a peer that takes part in the exchange can do)
+func rewriteX(s *Sys, from, to int, m []byte, f func(x []byte) []byte) []byte {
+	w := parseWire(m)
+	if w.kind != 3 || (w.typ != 0x11 && w.typ != 0x12) {
+		return m
+	}
+	keys, ok := akeSecretsFor(s, from, to, w.typ)
+	if !ok {
+		return m
+	}
+	ck, mk := keys.c, keys.m2
+	if w.typ == 0x12 {
+		ck, mk = keys.cp, keys.m2p
+	}
+	rest := w.body
+	var r []byte
+	if w.typ == 0x11 {
+		var ok1 bool
+		if rest, r, ok1 = otr3.ExtractData(rest); !ok1 {
+			return m
+		}
+	}
+	rest2, enc, ok2 := otr3.ExtractData(rest)
+	if !ok2 || len(rest2) != 20 {
+		return m
+	}
+	newEnc := aesCTRZero(ck, f(aesCTRZero(ck, enc)))
+	mac := hmac.New(sha256.New, mk)
+	mac.Write(otr3.AppendData(nil, newEnc))
+	var body []byte
+	if w.typ == 0x11 {
+		body = otr3.AppendData(nil, r)
+	}
+	body = otr3.AppendData(body, newEnc)
+	body = append(body, mac.Sum(nil)[:20]...)
+	return encodeWire(w.hdr, body)
+}
+
+// MImpersonate: the public key inside X is replaced by the victim's, the sender's own signature stays
 func MImpersonate(victim int) Mut {
 	return Mut{fmt.Sprintf("(MImpersonate %d)", victim), "impersonate", func(s *Sys, from, to int, m []byte) []byte {
-		w := parseWire(m)
-		if w.kind != 3 || w.typ != 0x11 {
-			return m
-		}
-		// from's AKE exponent: the last 40-byte read before this message was produced is recorded by the party
-		x := s.ps[from].akeExp
-		// the DH-Key from 'to' that 'from' answered
-		var gy *big.Int
-		for i := len(s.ps[to].outs) - 1; i >= 0; i-- {
-			ow := parseWire(s.ps[to].outs[i])
-			if ow.kind == 3 && ow.typ == 0x0a {
-				_, gy, _ = otr3.ExtractMPI(ow.body)
-				break
+		return rewriteX(s, from, to, m, func(xb []byte) []byte {
+			after, ok, _ := otr3.ParsePublicKey(xb)
+			if !ok {
+				return xb
 			}
-		}
-		if x == nil || gy == nil {
-			return m
-		}
-		keys := refAKEKeysFor(new(big.Int).Exp(gy, new(big.Int).SetBytes(x), groupP))
-		rest, r, ok := otr3.ExtractData(w.body)
-		if !ok {
-			return m
-		}
-		rest2, enc, ok := otr3.ExtractData(rest)
-		if !ok || len(rest2) != 20 {
-			return m
-		}
-		xb := aesCTRZero(keys.c, enc)
-		// xb = pubkey(from) || keyid || sig ; swap the public key
-		fromPub := partyKeys[from].PublicKey().(*otr3.DSAPublicKey)
-		_ = fromPub
-		after, ok2, _ := otr3.ParsePublicKey(xb)
-		if !ok2 {
-			return m
-		}
-		victimSer := partyKeys[victim].Serialize()
-		victimPub := victimSer[:len(victimSer)-len(otr3.AppendMPI(nil, partyKeys[victim].X))]
-		newXb := append(append([]byte{}, victimPub...), after...)
-		newEnc := aesCTRZero(keys.c, newXb)
-		mac := hmac.New(sha256.New, keys.m2)
-		mac.Write(otr3.AppendData(nil, newEnc))
-		body := otr3.AppendData(nil, r)
-		body = otr3.AppendData(body, newEnc)
-		body = append(body, mac.Sum(nil)[:20]...)
-		return encodeWire(w.hdr, body)
+			victimSer := partyKeys[victim].Serialize()
+			victimPub := victimSer[:len(victimSer)-len(otr3.AppendMPI(nil, partyKeys[victim].X))]
+			return append(append([]byte{}, victimPub...), after...)
+		})
+	}}
+}
+
+// MBadX: X is replaced by bytes that do not parse as public key, key id, signature
+func MBadX(kind int) Mut {
+	return Mut{fmt.Sprintf("(MBadX %d)", kind), "unparsable-x", func(s *Sys, from, to int, m []byte) []byte {
+		return rewriteX(s, from, to, m, func(xb []byte) []byte {
+			x := append([]byte{}, xb...)
+			switch kind {
+			case 0: // unknown key type
+				x[1] = 1
+			case 1: // the first MPI of the key announces more bytes than there are
+				x[2], x[3], x[4], x[5] = 0xff, 0xff, 0xff, 0xf0
+			case 2: // cut inside the key
+				x = x[:40]
+			case 3: // key and key id, no signature
+				if after, ok, _ := otr3.ParsePublicKey(xb); ok {
+					x = x[:len(xb)-len(after)+4]
+				}
+			default: // nothing at all
+				x = nil
+			}
+			return x
+		})
 	}}
 }
 
@@ -89,6 +131,13 @@ func genC01(c *Ctx) {
 		s := with.s
 		signed := map[int]map[int]bool{1: {2: true}, 2: {1: true}} // both parties' genuine signature messages are delivered
 		c01Check(c, s, signed)
+		// right after the damaged copy: a conversation that is encrypted reports the key of the party it has a session with
+		if with.mutIdx >= 0 && with.encAfter && with.keyAfter != 1 && with.keyAfter != 2 {
+			c.Violate("wrong-peer-key", with.label, fmt.Sprintf("after a rejected key-exchange message the encrypted conversation reports the key of party %d, who signed nothing", with.keyAfter), s.trace)
+		}
+		if with.panicked {
+			c.Violate("panic", with.label, "a call panicked", s.trace)
+		}
 		for who := 1; who <= 2; who++ {
 			if !s.ps[who].c.IsEncrypted() && with.rejected {
 				c.Violate("ake-incomplete-after-rejected-message", with.label, "the genuine messages were all delivered, the damaged copy was rejected, yet the exchange did not complete", s.trace)
@@ -108,6 +157,7 @@ func genC01(c *Ctx) {
 		pol := c.pickVersionPolicy()
 		pols := []int{pol, pol, pol}
 		s := newSys(pols, c.R.U64())
+		s.keepSecrets()
 		signedTo := map[int]map[int]bool{1: {}, 2: {}, 3: {}}
 		deliver := func(from, idx, to int, m Mut) {
 			w := parseWire(s.ps[from].outs[idx])
